@@ -417,6 +417,7 @@ func (p *Proxy) handleCONNECT(r responder.Responder, proxyReq *http.Request) err
 		// Every exchange gets its own responder: it accumulates the response headers,
 		// Content-Length and framing, none of which may leak into the next response on this tunnel.
 		exchangeResponder := responder.NewRawHTTPResponder(tlsConn)
+		exchangeResponder.AnswersTo(req)
 		if err := p.handleHTTP(exchangeResponder, req); err != nil {
 			slog.Error("Error processing HTTP request in CONNECT tunnel", "host", proxyReq.Host, "error", err)
 			if errors.Is(err, ErrResponseIncomplete) {
